@@ -531,3 +531,12 @@ func Concurrently(n, rounds int, f func(g, k int) string) string {
 	wg.Wait()
 	return first
 }
+
+// Exact returns a copy of b whose capacity equals its length (as bytes read
+// off the wire have): a read one past the end panics instead of silently
+// returning whatever follows in memory.
+func Exact(b []byte) []byte {
+	o := make([]byte, len(b))
+	copy(o, b)
+	return o[:len(b):len(b)]
+}
